@@ -474,7 +474,7 @@ program `P` with entry function `main` of the fragment
                 | x, .., y := f(e, .., e) | l, .., l = f(e, .., e)   (several results)
                 | if e { s* } [else { s* }]      (also with `return` inside)
                 | for i := lo; i <cmp> hi; i += st { s* }      (unrolled)
-                | return e, .., e
+                | return e, .., e | return f(e, .., e)      (all results of f at once)
     func      ::= func(params) (results) { s* }     every path ends in `return`; named
                   results are `var r T` at the start of the body (zero-initialised)
     program   ::= func*   calls are INLINED (fresh value ids per activation, one `mov`
@@ -512,8 +512,8 @@ the real compiler from the reference semantics, /verif/known_findings.json):
     that cannot exceed the array (the reference semantics is undefined out of
     range, the `index` circuit answers 0).
 
-Missing: `return f(..)` / `g(f(..))` passing SEVERAL results on at once,
-constant-only expressions (`a[i+1]`), `len`; `lower` creates the merge phis
+Missing: `g(f(..))` passing SEVERAL results on as arguments, constant arguments
+of calls, constant-only expressions (`a[i+1]`), `len`; `lower` creates the merge phis
 eagerly where the real compiler creates them lazily at the first use and emits
 one `amov` for a nested l-value where the real compiler emits slice + amov +
 amov (same values; structural drift is reported by the tie as advisory), and it
@@ -623,6 +623,14 @@ def exCall : Prog :=
      .assign [⟨"a", []⟩, ⟨"y", []⟩] (.call 0 [.var "x", .call 1 [.var "b"]]),
      .ret [.var "a", .var "y", .bin .add (.call 1 [.var "x"]) (.var "x")]]⟩]
 
+/-- `return f(..)` delivering both results of `f`:
+`func main(a uint8, b uint8) (uint8, bool) { return f(b, a) }` with `f` of `exCall`. -/
+def exRetCall : Prog :=
+  [⟨[("p", .uint 8), ("q", .uint 8)], 2,
+    [.ifte (.bin .gt (.var "p") (.var "q")) [.ret [.bin .sub (.var "p") (.var "q"), .lit .bool 1]] [],
+     .ret [.bin .sub (.var "q") (.var "p"), .lit .bool 0]]⟩,
+   ⟨[("a", .uint 8), ("b", .uint 8)], 2, [.ret [.call 0 [.var "b", .var "a"]]]⟩]
+
 /-- Arrays: parameter, constant and computed index, element write, whole-array copy, loop
 variable as index, array result:
 ```
@@ -684,9 +692,11 @@ theorem C03_ssa_lower_examples_in_fragment :
     ([exFrag, exLit, exOps, exIf, exEarly, exFor, exDiv].map fun fn => Ssa.noDivP [fn]) =
       [true, true, true, true, true, true, false] ∧
     [(Ssa.lower 60 exCall 2).map (·.2.length), (Ssa.lower 60 exArr 0).map (·.2.length),
-      (Ssa.lower 60 exStruct 1).map (·.2.length), (Ssa.lower 60 exNested 0).map (·.2.length)] =
-      [some 45, some 24, some 21, some 18] ∧
-    [Ssa.noDivP exCall, Ssa.noDivP exArr, Ssa.noDivP exStruct, Ssa.noDivP exNested] = [true, true, true, true] := by
+      (Ssa.lower 60 exStruct 1).map (·.2.length), (Ssa.lower 60 exNested 0).map (·.2.length),
+      (Ssa.lower 60 exRetCall 1).map (·.2.length)] =
+      [some 45, some 24, some 21, some 18, some 14] ∧
+    [Ssa.noDivP exCall, Ssa.noDivP exArr, Ssa.noDivP exStruct, Ssa.noDivP exNested, Ssa.noDivP exRetCall] =
+      [true, true, true, true, true] := by
   refine ⟨?_, ?_, ?_, ?_⟩ <;> decide +kernel
 
 theorem C03_ssa_lower_ex_straight : bothSem exFrag [0xf0, 0x9] = (some [(0x19, 8), (0x9, 4)], some [(0x19, 8), (0x9, 4)]) := by
@@ -732,6 +742,12 @@ theorem C03_ssa_lower_ex_div :
 theorem C03_ssa_lower_ex_call :
     bothSemP exCall 2 [9, 5] = (some [(1, 8), (0, 1), (8, 8)], some [(1, 8), (0, 1), (8, 8)]) ∧
     bothSemP exCall 2 [2, 7] = (some [(2, 8), (0, 1), (10, 8)], some [(2, 8), (0, 1), (10, 8)]) := by
+  refine ⟨?_, ?_⟩ <;> decide +kernel
+
+/-- f(5, 9) = (4, false); f(9, 5) = (4, true). -/
+theorem C03_ssa_lower_ex_return_call :
+    bothSemP exRetCall 1 [9, 5] = (some [(4, 8), (0, 1)], some [(4, 8), (0, 1)]) ∧
+    bothSemP exRetCall 1 [5, 9] = (some [(4, 8), (1, 1)], some [(4, 8), (1, 1)]) := by
   refine ⟨?_, ?_⟩ <;> decide +kernel
 
 /-- a = [1, 2, 3, 4], i = 2: b = [1, 1 + 3, 3, 4] = 0x4341, a[3] = 4, s = 12. -/
